@@ -21,7 +21,16 @@ k <= N and *every* splitting of a run is executed:
      bit-for-bit the iterate after exactly k iterations, the final x is the last record.
 
 No expected value is stored anywhere: all oracles are differential (optimised vs shipped
-reference) or confluence (different histories of the same code).
+reference) or confluence (different histories of the same code).  Problem objects (operators,
+functionals, right-hand sides) are built once per state and shared by all runs of the state, so
+state hidden in them shows up as a confluence failure as well.
+
+Inner alphabets: the small pools (landweber, kaczmarz, mlem, steepest descent, one-block
+adupdates, ...) run the full product of their option alphabets; the large (operator x f x g)
+pools run every instance with at most one deviation from the default instance (``_grid``).
+Exceptions: raised inside functional / operator code by the reference too -> counted as
+unspecified (C03/C07 judge them); raised by a line of the solver itself in a documented
+configuration -> ``raises:<Type>``; raised by the optimised solver only -> ``optimised_raises``.
 """
 import itertools
 import os
@@ -721,9 +730,13 @@ def _cases_adam(cfg):
 
 def _cases_dr(cfg):
     Ls = [_op(n) for n in cfg['ops']]
-    dom = Ls[0].domain
+    dom = Ls[0].domain if Ls else _space(cfg['dom'])
     f = _func(cfg['f'], dom)
     gs = [_func(gn, L.range) for gn, L in zip(cfg['g'], Ls)]
+    kw = {}
+    if cfg.get('l'):
+        # infimal convolution terms: "l : sequence of Functionals ... l[i].convex_conj.proximal"
+        kw['l'] = [_func(ln, L.range) for ln, L in zip(cfg['l'], Ls)]
     files = (M_dr.__file__,)
     for tau, lam, x0 in _grid(cfg, STEPS, [1.0, 0.5, 1.5], STARTS):
         sig = [0.5, 0.25][:len(Ls)]
@@ -733,7 +746,7 @@ def _cases_dr(cfg):
 
         def run(st, n, cb, tau=tau, lam=lam, sig=sig):
             M_dr.douglas_rachford_pd(st['x'], f, gs, Ls, n, tau=tau, sigma=sig, callback=cb,
-                                     lam=lam)
+                                     lam=lam, **kw)
 
         yield Case('L=%s tau=%s sigma=%s lam=%s x0=%s' % (cfg['ops'], tau, sig, lam, x0), fresh,
                    run, files=files)
@@ -933,6 +946,11 @@ def configs(tier):
             for L1, L2 in itertools.product(gops, repeat=2):
                 add(1, solver='douglas_rachford_pd', ops=[L1, L2], f=f,
                     g=[SHORT[RKIND[L1]][0], SHORT[RKIND[L2]][2]])
+    for f in SHORT['T']:
+        add(1, solver='douglas_rachford_pd', ops=[], f=f, g=[], dom='rn3')
+        for L in groups['rn3']:
+            add(1, solver='douglas_rachford_pd', ops=[L], f=f, g=[SHORT[RKIND[L]][0]],
+                l=[SHORT[RKIND[L]][2]])
     keys = set()
     out = []
     for c in cfgs:
@@ -963,7 +981,9 @@ def _site(cfg):
     if s in ('kaczmarz', 'osmlem'):
         return '%s[%d operators]' % (s, len(cfg['ops']))
     if s == 'douglas_rachford_pd':
-        return 'douglas_rachford_pd[f=%s,g=%s]' % (cfg['f'], '+'.join(cfg['g']))
+        return 'douglas_rachford_pd[f=%s,g=%s%s]' % (
+            cfg['f'], '+'.join(cfg['g']) or 'none',
+            ',l=' + '+'.join(cfg['l']) if cfg.get('l') else '')
     if s in ('steepest_descent', 'adam'):
         return '%s[f=%s]' % (s, cfg['f'])
     if s == 'prox_dca':
@@ -1045,6 +1065,11 @@ def meta(tier):
                    'smooth_terms': SMOOTH + ['LS'],
                    'three_way_splits': 'default instance of every state; all instances of the '
                                        'small pools' if deep else 'none'},
+        'extra': {'unreached_explained':
+                  'all unreached anchor lines are argument-validation raise statements, the two '
+                  'random-order arms (random=True: the property is about the fixed order) and '
+                  'the default-omega arm of landweber (random power-method start; resumption '
+                  'needs an explicit omega); every line of every loop body is reached'},
         'assumptions': [
             'entries, step sizes and start points are dyadic; nothing is judged from the first '
             'non-finite iterate on (counted under unspecified_skipped)',
